@@ -731,7 +731,7 @@ impl JusticeOracle {
 					j.input.iter().any(|i| i.previous_output == *t)
 						&& j.input.iter().any(|i| i.previous_output != *t && sim.chain.spent_by.get(&i.previous_output).map(|sp| !self.v_txids.contains(sp)).unwrap_or(false))
 				});
-				let refused = sim.w.nodes[self.v].logger.lines.lock().unwrap().keys().any(|(_, l)| l.contains("Can't bump new claiming tx") && l.contains("below dust threshold"));
+				let refused = sim.w.noted(self.v, "bump-refused-below-dust");
 				if split && refused {
 					return Err(fail("x-keeps-output", format!("output {} ({} sat) of the revoked commitment: V's aggregated claim was invalidated when X confirmed a second-stage transaction on another input, and V never re-issued a claim for {} ({} sat at stake)", op, val, t, self.prevout(sim, t).map(|o| o.value.to_sat()).unwrap_or(0))).with_key("x-keeps-output/abandoned-after-split"));
 				}
